@@ -261,6 +261,10 @@ func (g *G) Bundle(nFiles, nTmpl int) *Program {
 	}
 	for i := 0; i < nFiles; i++ {
 		f := &ref.File{Name: fmt.Sprintf("file%d.soy", i), Namespace: namespaces[i%len(namespaces)]}
+		if i > 0 && g.R.P(1, 4) {
+			// two files of one namespace, each with its own namespace attributes
+			f.Namespace = b.Files[i-1].Namespace
+		}
 		if g.O.Autoescape {
 			f.Autoescape = g.pick([]string{"", "", "true", "false", "contextual"})
 		}
@@ -326,7 +330,14 @@ func (g *G) Bundle(nFiles, nTmpl int) *Program {
 		for k := 0; k < np; k++ {
 			p := ParamPool[perm[k]]
 			opt := (p.Ty.K == "int" || p.Ty.K == "str") && g.R.P(1, 4)
-			t.Params = append(t.Params, ref.ParamDecl{Name: p.Name, Optional: opt})
+			pd := ref.ParamDecl{Name: p.Name, Optional: opt}
+			if t.HeaderStyle && g.R.P(1, 2) {
+				pd.TypeSrc = g.pick([]string{"any", "string", "int", "bool", "float", "list<string>", "map<string, int>", "[age: int, name: string]", "?"})
+				if g.R.P(1, 2) {
+					pd.DefaultSrc = g.pick([]string{"5", "'d'", "true", "[1, 2]", "null", "['k': 1]", "-1"})
+				}
+			}
+			t.Params = append(t.Params, pd)
 			g.push(&binding{name: p.Name, ty: p.Ty, kind: "param", optional: opt})
 		}
 		t.NoDoc = len(t.Params) == 0 && g.R.P(1, 3)
